@@ -35,6 +35,7 @@ import (
 //   prune.lsm    <matchers> <sets>                                  -> 1 | 0                 store.LabelSetsMatch
 //   prune.store  <mint> <maxt> <matchers> <dbg> <client>            -> ok|time|local|addr|extlabels|filter   storeMatches (hook)
 //   prune.ext    <matchers> <labels>                                -> nomatch | ok <kept>   matchesExternalLabels (hook)
+//   o.prune.e2e  … real TSDB stores behind the proxy, see c05e2e.go (oracle only)
 //   prune.series <mint> <maxt> <matchers> <sel> <abort> <dbg> <clients>
 //                 -> none | invalid | unavailable | ok <queried idx,…> <matchers forwarded>  ProxyStore.Series with recording clients
 // oracle (independent of the model, uses the real prometheus matchers and labelpb.ExtendSortedLabels):
@@ -308,6 +309,8 @@ func execC05(c *hlib.Ctx, tok []string) string {
 		return "bad-op"
 	}
 	switch tok[0] {
+	case "o.prune.e2e":
+		return execPruneE2E(c, tok)
 	case "prune.lsm":
 		if len(tok) != 3 {
 			return "bad-op"
@@ -707,6 +710,14 @@ func genC05(c *hlib.Ctx) {
 		}
 		ans = c.Do(fmt.Sprintf("prune.series %d %d %s %s %s %s %s", qmint, qmaxt, mtok, showLabelSet(sel), abort, dbg, hlib.Join(ctoks, "|")), true)
 		c.Count("series:" + strings.Fields(ans)[0])
+	}
+	// end to end on real TSDB stores (oracle only)
+	ne := c.N(150, 2000)
+	for i := 0; i < ne; i++ {
+		ans := c.Do(genPruneE2E(c), true)
+		if strings.HasPrefix(ans, "err") {
+			c.Count("e2e:" + ans)
+		}
 	}
 }
 
